@@ -107,19 +107,18 @@ def StEntriesU (p : Program) (fuel : Nat) : Prop :=
 /-- the loop invariant of the field-by-field assignment: `cur` is the target struct as it is now (the fields already
 processed assigned, the remaining fields `tfs` still holding what the previous value `orig` held) -/
 def StFieldsU (p : Program) (fuel : Nat) : Prop :=
-  ∀ (fr : Frame) (plans : FieldPlans) (sfs tfs : List (FieldInfo × Ty)) (src : Val) (fs cur orig : List (S × Val))
+  ∀ (fr : Frame) (plans : FieldPlans) (s : Ty) (tfs : List (FieldInfo × Ty)) (src : Val) (fs cur orig : List (S × Val))
     (n : Nat) (v' : Val) (n' : Nat),
-    HasFieldsU p plans sfs tfs →
-    (src = .struct fs ∨ ∃ l, src = .ptr l (.struct fs)) →
-    (∀ name x f ty, fs.lookup name = some x →
-      sfs.find? (fun (y : FieldInfo × Ty) => y.1.name == name) = some (f, ty) → WT p.conv.env x ty) →
+    HasFieldsU p plans s tfs →
+    WT p.conv.env (.struct fs) s →
+    (src = .struct fs ∨ ((∃ l, src = .ptr l (.struct fs)) ∧ noWholeSource plans = true)) →
     (fieldNames tfs).Nodup →
     (∀ name x f ty, cur.lookup name = some x →
       tfs.find? (fun (y : FieldInfo × Ty) => y.1.name == name) = some (f, ty) → OldOK p.conv.env x ty) →
     (∀ name, name ∈ fieldNames tfs → cur.lookup name = orig.lookup name) →
     evalFields p fuel fr plans src (.struct cur) n = .ok (v', n') →
     ∃ ws, v' = .struct ws ∧ (∀ name, name ∉ fieldNames tfs → ws.lookup name = cur.lookup name) ∧
-      ImgFieldsOnto p.conv.env (CtorSig p) (modesOf plans) sfs fs tfs (erase.eraseFields orig) (erase.eraseFields ws)
+      ImgFieldsOnto p.conv.env (CtorSig p) (modesOf plans) s (.struct fs) tfs (erase.eraseFields orig) (erase.eraseFields ws)
 
 /-! ### default constructors -/
 
@@ -455,21 +454,256 @@ theorem stEntriesU_step (p : Program) (fuel : Nat) (ihc : StConvU p fuel) (ihe :
 
 /-! ### struct fields -/
 
-theorem walk_one (src : Val) (fs : List (S × Val)) (name : S)
-    (hsrc : src = .struct fs ∨ ∃ l, src = .ptr l (.struct fs)) :
-    walk [name] [false] src =
-      (match fs.lookup name with | some x => .ok (some x) | none => .stuck "walk: no such field") := by
-  rcases hsrc with rfl | ⟨l, rfl⟩
-  · unfold walk
-    simp only [fieldOf, Bool.false_eq_true, if_false]
-    cases fs.lookup name with
-    | none => rfl
-    | some x => simp [walk]
-  · unfold walk
-    simp only [fieldOf, Bool.false_eq_true, if_false]
-    cases fs.lookup name with
-    | none => rfl
-    | some x => simp [walk]
+/-! the walk of a source path, over types and over values -/
+
+theorem derefTy_ptr {env : TEnv} {cur e : Ty} (h : under env cur = .ptr e) : PlanCheck.derefTy env cur = (e, true) := by
+  unfold PlanCheck.derefTy; rw [h]
+
+theorem derefTy_nonptr {env : TEnv} {cur : Ty} (h : ∀ e, under env cur ≠ .ptr e) : PlanCheck.derefTy env cur = (cur, false) := by
+  unfold PlanCheck.derefTy
+  split
+  · rename_i e he; exact absurd he (h e)
+  · rfl
+
+theorem fieldTyOf_some {env : TEnv} {t : Ty} {nm : S} {ty : Ty} (h : PlanCheck.fieldTyOf env t nm = some ty) :
+    ∃ fs f, under env t = .struct fs ∧ fs.toList.find? (fun (y : FieldInfo × Ty) => y.1.name == nm) = some (f, ty) := by
+  unfold PlanCheck.fieldTyOf at h
+  split at h
+  · rename_i fs hfs
+    cases hf : fs.toList.find? (fun (x : FieldInfo × Ty) => x.1.name == nm) with
+    | none => simp [hf] at h
+    | some q =>
+      obtain ⟨f, ty'⟩ := q
+      simp [hf] at h
+      subst h
+      exact ⟨fs, f, hfs, hf⟩
+  · cases h
+
+theorem ptr_or_not (env : TEnv) (t : Ty) : (∃ e, under env t = .ptr e) ∨ (∀ e, under env t ≠ .ptr e) := by
+  by_cases h : ∃ e, under env t = .ptr e
+  · exact .inl h
+  · exact .inr (fun e he => h ⟨e, he⟩)
+
+/-- one step of `walkTy` -/
+theorem walkTy_cons {env : TEnv} {cur : Ty} {nm : S} {rest : List S} {leaf : Ty} {ds : List Bool} {g : Bool}
+    (h : PlanCheck.walkTy env cur (nm :: rest) = some (leaf, ds, g)) :
+    ∃ ty ds' g', PlanCheck.fieldTyOf env (PlanCheck.derefTy env cur).1 nm = some ty ∧
+      PlanCheck.walkTy env ty rest = some (leaf, ds', g') ∧
+      ds = (PlanCheck.derefTy env cur).2 :: ds' ∧ g = ((PlanCheck.derefTy env cur).2 || g') := by
+  unfold PlanCheck.walkTy at h
+  cases hf : PlanCheck.fieldTyOf env (PlanCheck.derefTy env cur).1 nm with
+  | none => simp [hf] at h
+  | some ty =>
+    simp only [hf] at h
+    cases hr : PlanCheck.walkTy env ty rest with
+    | none => simp [hr] at h
+    | some q =>
+      obtain ⟨leaf', ds', g'⟩ := q
+      simp only [hr] at h
+      simp only [Option.some.injEq, Prod.mk.injEq] at h
+      obtain ⟨rfl, rfl, rfl⟩ := h
+      exact ⟨ty, ds', g', rfl, hr, rfl, rfl⟩
+
+/-- the checker's type walk is the specification's `PathTy` -/
+theorem walkTy_pathTy (env : TEnv) : ∀ (path : List S) (cur leaf : Ty) (ds : List Bool) (g : Bool),
+    PlanCheck.walkTy env cur path = some (leaf, ds, g) → PathTy env cur path g leaf := by
+  intro path
+  induction path with
+  | nil =>
+    intro cur leaf ds g h
+    unfold PlanCheck.walkTy at h
+    simp only [Option.some.injEq, Prod.mk.injEq] at h
+    obtain ⟨rfl, _, rfl⟩ := h
+    exact .here
+  | cons nm rest ih =>
+    intro cur leaf ds g h
+    obtain ⟨ty, ds', g', hf, hr, _, hg⟩ := walkTy_cons h
+    have hrest := ih ty leaf ds' g' hr
+    rcases ptr_or_not env cur with ⟨e, hu⟩ | hnp
+    · rw [derefTy_ptr hu] at hf hg
+      obtain ⟨fs, f, hfs, hfind⟩ := fieldTyOf_some hf
+      have : g = true := by simpa using hg
+      subst this
+      exact .ptrField hu hfs hfind hrest
+    · rw [derefTy_nonptr hnp] at hf hg
+      obtain ⟨fs, f, hfs, hfind⟩ := fieldTyOf_some hf
+      have : g = g' := by simpa using hg
+      subst this
+      exact .field hfs hfind hrest
+
+theorem walk_nil_path (ds : List Bool) (v : Val) : walk [] ds v = .ok (some v) := by
+  unfold walk; rfl
+
+theorem walk_field {nm : S} {ps : List S} {ds : List Bool} {xs : List (S × Val)} {x : Val} (h : xs.lookup nm = some x) :
+    walk (nm :: ps) (false :: ds) (.struct xs) = walk ps ds x := by
+  conv => lhs; unfold walk
+  simp [fieldOf, h]
+
+theorem walk_field_none {nm : S} {ps : List S} {ds : List Bool} {xs : List (S × Val)} (h : xs.lookup nm = none) :
+    walk (nm :: ps) (false :: ds) (.struct xs) = .stuck "walk: no such field" := by
+  conv => lhs; unfold walk
+  simp [fieldOf, h]
+
+/-- a struct behind the pointer-typed source of an update method is read through -/
+theorem walk_field_ptrsrc {nm : S} {ps : List S} {ds : List Bool} {l : Loc} {xs : List (S × Val)} :
+    walk (nm :: ps) (false :: ds) (.ptr l (.struct xs)) = walk (nm :: ps) (false :: ds) (.struct xs) := by
+  conv => lhs; unfold walk
+  conv => rhs; unfold walk
+  simp [fieldOf]
+
+theorem walk_deref_nil {nm : S} {ps : List S} {ds : List Bool} : walk (nm :: ps) (true :: ds) .nil = .ok none := by
+  conv => lhs; unfold walk
+  simp
+
+theorem walk_deref {nm : S} {ps : List S} {ds : List Bool} {l : Loc} {xs : List (S × Val)} {x : Val} (h : xs.lookup nm = some x) :
+    walk (nm :: ps) (true :: ds) (.ptr l (.struct xs)) = walk ps ds x := by
+  conv => lhs; unfold walk
+  simp [fieldOf, h]
+
+theorem walk_deref_none {nm : S} {ps : List S} {ds : List Bool} {l : Loc} {xs : List (S × Val)} (h : xs.lookup nm = none) :
+    walk (nm :: ps) (true :: ds) (.ptr l (.struct xs)) = .stuck "walk: no such field" := by
+  conv => lhs; unfold walk
+  simp [fieldOf, h]
+
+/-- the value walk of a type-checked path from a well-typed value: a nil pointer on the way (`none`), or a well-typed
+value of the leaf type — the value the path names (`PathVal`) -/
+theorem walk_typed (env : TEnv) : ∀ (path : List S) (cur : Ty) (v : Val) (leaf : Ty) (ds : List Bool) (g : Bool) (r : Option Val),
+    WT env v cur → PlanCheck.walkTy env cur path = some (leaf, ds, g) → walk path ds v = .ok r →
+    (r = none ∧ g = true ∧ PathVal v path none) ∨ (∃ x, r = some x ∧ WT env x leaf ∧ PathVal v path (some x)) := by
+  intro path
+  induction path with
+  | nil =>
+    intro cur v leaf ds g r hwt h hw
+    unfold PlanCheck.walkTy at h
+    simp only [Option.some.injEq, Prod.mk.injEq] at h
+    obtain ⟨rfl, _, _⟩ := h
+    rw [walk_nil_path] at hw
+    cases hw
+    exact .inr ⟨v, rfl, hwt, .here⟩
+  | cons nm rest ih =>
+    intro cur v leaf ds g r hwt h hw
+    obtain ⟨ty, ds', g', hf, hr, hds, hg⟩ := walkTy_cons h
+    subst hds
+    rcases ptr_or_not env cur with ⟨e, hu⟩ | hnp
+    · rw [derefTy_ptr hu] at hf hg hw
+      obtain ⟨fs, f, hfs, hfind⟩ := fieldTyOf_some hf
+      have hgt : g = true := by simpa using hg
+      rcases wt_ptr_inv hwt hu with rfl | ⟨l, x, rfl, hx⟩
+      · rw [walk_deref_nil] at hw
+        cases hw
+        exact .inl ⟨rfl, hgt, .ptrNil⟩
+      · obtain ⟨xs, rfl, hxs⟩ := wt_struct_inv hx hfs
+        cases hl : xs.lookup nm with
+        | none => rw [walk_deref_none hl] at hw; cases hw
+        | some y =>
+          rw [walk_deref hl] at hw
+          rcases ih ty y leaf ds' g' r (hxs nm y f ty hl hfind) hr hw with ⟨h1, _, h3⟩ | ⟨x', h1, h2, h3⟩
+          · exact .inl ⟨h1, hgt, .ptrField hl h3⟩
+          · exact .inr ⟨x', h1, h2, .ptrField hl h3⟩
+    · rw [derefTy_nonptr hnp] at hf hg hw
+      obtain ⟨fs, f, hfs, hfind⟩ := fieldTyOf_some hf
+      have hgg : g = g' := by simpa using hg
+      obtain ⟨xs, rfl, hxs⟩ := wt_struct_inv hwt hfs
+      cases hl : xs.lookup nm with
+      | none => rw [walk_field_none hl] at hw; cases hw
+      | some y =>
+        rw [walk_field hl] at hw
+        rcases ih ty y leaf ds' g' r (hxs nm y f ty hl hfind) hr hw with ⟨h1, h2, h3⟩ | ⟨x', h1, h2, h3⟩
+        · exact .inl ⟨h1, hgg ▸ h2, .field hl h3⟩
+        · exact .inr ⟨x', h1, h2, .field hl h3⟩
+
+/-- the value handed to the field conversion and the next free location (the `argv` of `evalFields`) -/
+def fieldArg (guarded leafIsPtr : Bool) (leaf? : Option Val) (n : Nat) : Val × Nat :=
+  if !guarded then (leaf?.getD .nil, n)
+  else match leaf? with
+    | none => (.nil, n)
+    | some lv => if leafIsPtr then (lv, n) else (.ptr (.fresh n) lv, n + 1)
+
+/-- what `evalFields` does with a mapped field once its source path is walked (the rest of its clause, as a definition) -/
+def fieldCont (p : Program) (fuel : Nat) (fr : Frame) (rest : FieldPlans) (src old : Val) (target : S) (pathEmpty : Bool)
+    (cv : Conv) (zero : ZeroCheck) (argv : Val × Nat) : Outcome (Val × Nat) :=
+  let oldF := if old.isAbsent then Val.absent else (fieldOf old target).getD .nil
+  if zero == .check && isZeroVal argv.1 then evalFields p fuel fr rest src old argv.2
+  else
+    match evalConv p fuel { fr with parent := if pathEmpty then fr.parent else none } cv argv.1 oldF argv.2 with
+    | .ok (nv, n') =>
+      if old.isAbsent && nv.isAbsent then evalFields p fuel fr rest src old n'
+      else evalFields p fuel fr rest src (setField old target nv) n'
+    | .err e => .err e
+    | .panic k => .panic k
+    | .stuck w => .stuck w
+
+/-- `evalFields` on a mapped field = `fieldCont` on `fieldArg` (the model's clause, restated) -/
+theorem evalFields_mapped (p : Program) (fuel : Nat) (fr : Frame) (target : S) (path : List S) (derefs : List Bool)
+    (guarded leafIsPtr : Bool) (cv : Conv) (zero : ZeroCheck) (rest : FieldPlans) (src old : Val) (n : Nat) (leaf? : Option Val)
+    (hw : walk path derefs src = .ok leaf?) :
+    evalFields p (fuel + 1) fr (.cons (.mapped target path derefs guarded leafIsPtr cv zero) rest) src old n =
+      fieldCont p fuel fr rest src old target path.isEmpty cv zero (fieldArg guarded leafIsPtr leaf? n) := by
+  conv => lhs; unfold evalFields
+  simp only [hw]
+  rfl
+
+theorem evalFields_mapped_fail (p : Program) (fuel : Nat) (fr : Frame) (target : S) (path : List S) (derefs : List Bool)
+    (guarded leafIsPtr : Bool) (cv : Conv) (zero : ZeroCheck) (rest : FieldPlans) (src old : Val) (n : Nat) (r : Val × Nat)
+    (hw : ∀ leaf?, walk path derefs src ≠ .ok leaf?) :
+    evalFields p (fuel + 1) fr (.cons (.mapped target path derefs guarded leafIsPtr cv zero) rest) src old n ≠ .ok r := by
+  conv => lhs; unfold evalFields
+  cases h : walk path derefs src with
+  | ok l => exact absurd h (hw l)
+  | err e => simp [h]
+  | panic k => simp [h]
+  | stuck w => simp [h]
+
+theorem under_ptr (env : TEnv) (t : Ty) : under env (.ptr t) = .ptr t := rfl
+
+/-- the handed value is what the specification says (`FieldSrc`), and it is well-typed -/
+theorem fieldArg_spec (env : TEnv) {s : Ty} {fs : List (S × Val)} {path : List S} {leaf : Ty} {ds : List Bool} {g lp : Bool}
+    {r : Option Val} (n : Nat) (hwt : WT env (.struct fs) s) (hty : PlanCheck.walkTy env s path = some (leaf, ds, g))
+    (hlp : lp = (isPtr env leaf).isSome) (hw : walk path ds (.struct fs) = .ok r) :
+    FieldSrc env s (.struct fs) path (PlanCheck.fieldArgTy g lp leaf) (fieldArg g lp r n).1 ∧
+      WT env (fieldArg g lp r n).1 (PlanCheck.fieldArgTy g lp leaf) := by
+  have hpt := walkTy_pathTy env path s leaf ds g hty
+  rcases walk_typed env path s (.struct fs) leaf ds g r hwt hty hw with ⟨rfl, rfl, hpv⟩ | ⟨x, rfl, hx, hpv⟩
+  · -- a pointer on the way is nil
+    cases hp : isPtr env leaf with
+    | some e =>
+      have hl : lp = true := by rw [hlp, hp]; rfl
+      subst hl
+      have hu := isPtr_some hp
+      simp only [fieldArg, PlanCheck.fieldArgTy, Bool.not_true, Bool.false_eq_true, if_false, Bool.or_true, if_true]
+      exact ⟨.nilOnWayPtr hpt hu hpv, .nilPtr hu⟩
+    | none =>
+      have hl : lp = false := by rw [hlp, hp]; rfl
+      subst hl
+      simp only [fieldArg, PlanCheck.fieldArgTy, Bool.not_true, Bool.false_eq_true, if_false, Bool.or_false]
+      exact ⟨.nilOnWay hpt (isPtr_none hp) hpv, .nilPtr (under_ptr env leaf)⟩
+  · cases g with
+    | false =>
+      simp only [fieldArg, PlanCheck.fieldArgTy, Bool.not_false, if_true, Bool.true_or, Option.getD_some]
+      exact ⟨.direct hpt hpv, hx⟩
+    | true =>
+      cases hp : isPtr env leaf with
+      | some e =>
+        have hl : lp = true := by rw [hlp, hp]; rfl
+        subst hl
+        simp only [fieldArg, PlanCheck.fieldArgTy, Bool.not_true, Bool.false_eq_true, if_false, Bool.or_true, if_true]
+        exact ⟨.leafPtr hpt (isPtr_some hp) hpv, hx⟩
+      | none =>
+        have hl : lp = false := by rw [hlp, hp]; rfl
+        subst hl
+        simp only [fieldArg, PlanCheck.fieldArgTy, Bool.not_true, Bool.false_eq_true, if_false, Bool.or_false]
+        exact ⟨.wrapped hpt (isPtr_none hp) hpv, .ptr (under_ptr env leaf) hx⟩
+
+theorem wt_struct_ty {env : TEnv} {fs : List (S × Val)} {s : Ty} (h : WT env (.struct fs) s) : ∃ sfs, under env s = .struct sfs := by
+  cases h with
+  | struct h _ => exact ⟨_, h⟩
+
+/-- the first step of a type-checked path from a struct type dereferences nothing -/
+theorem walkTy_first {env : TEnv} {s : Ty} {sfs : Fields} {nm : S} {rest : List S} {leaf : Ty} {ds : List Bool} {g : Bool}
+    (hs : under env s = .struct sfs) (h : PlanCheck.walkTy env s (nm :: rest) = some (leaf, ds, g)) : ∃ ds', ds = false :: ds' := by
+  obtain ⟨ty, ds', g', _, _, hds, _⟩ := walkTy_cons h
+  rw [derefTy_nonptr (fun e he => by rw [hs] at he; cases he)] at hds
+  exact ⟨ds', hds⟩
 
 theorem find_tail {tf : FieldInfo} {tty : Ty} {tfs' : List (FieldInfo × Ty)} {name : S} {f : FieldInfo} {ty : Ty}
     (hnot : tf.name ∉ fieldNames tfs')
@@ -490,12 +724,11 @@ theorem find_tail {tf : FieldInfo} {tty : Ty} {tfs' : List (FieldInfo × Ty)} {n
 
 /-- the rest of the fields, after the head field was left alone -/
 theorem fields_kept (p : Program) (fuel : Nat) (ihf : StFieldsU p fuel) {fr : Frame} {rest : FieldPlans}
-    {sfs tfs' : List (FieldInfo × Ty)} {tf : FieldInfo} {tty : Ty} {src : Val} {fs cur orig : List (S × Val)}
+    {s : Ty} {tfs' : List (FieldInfo × Ty)} {tf : FieldInfo} {tty : Ty} {src : Val} {fs cur orig : List (S × Val)}
     {n : Nat} {v' : Val} {n' : Nat}
-    (hrest : HasFieldsU p rest sfs tfs')
-    (hsrc : src = .struct fs ∨ ∃ l, src = .ptr l (.struct fs))
-    (hwt : ∀ name x f ty, fs.lookup name = some x →
-      sfs.find? (fun (y : FieldInfo × Ty) => y.1.name == name) = some (f, ty) → WT p.conv.env x ty)
+    (hrest : HasFieldsU p rest s tfs')
+    (hwt : WT p.conv.env (.struct fs) s)
+    (hsrc : src = .struct fs ∨ ((∃ l, src = .ptr l (.struct fs)) ∧ noWholeSource rest = true))
     (hnd : (fieldNames ((tf, tty) :: tfs')).Nodup)
     (hold : ∀ name x f ty, cur.lookup name = some x →
       ((tf, tty) :: tfs').find? (fun (y : FieldInfo × Ty) => y.1.name == name) = some (f, ty) → OldOK p.conv.env x ty)
@@ -503,9 +736,9 @@ theorem fields_kept (p : Program) (fuel : Nat) (ihf : StFieldsU p fuel) {fr : Fr
     (hev : evalFields p fuel fr rest src (.struct cur) n = .ok (v', n')) :
     ∃ ws, v' = .struct ws ∧ (∀ name, name ∉ fieldNames ((tf, tty) :: tfs') → ws.lookup name = cur.lookup name) ∧
       (erase.eraseFields ws).lookup tf.name = (erase.eraseFields orig).lookup tf.name ∧
-      ImgFieldsOnto p.conv.env (CtorSig p) (modesOf rest) sfs fs tfs' (erase.eraseFields orig) (erase.eraseFields ws) := by
+      ImgFieldsOnto p.conv.env (CtorSig p) (modesOf rest) s (.struct fs) tfs' (erase.eraseFields orig) (erase.eraseFields ws) := by
   have hnd' : tf.name ∉ fieldNames tfs' ∧ (fieldNames tfs').Nodup := by simpa [fieldNames] using hnd
-  obtain ⟨ws, hv', hframe, himg⟩ := ihf fr rest sfs tfs' src fs cur orig n v' n' hrest hsrc hwt hnd'.2
+  obtain ⟨ws, hv', hframe, himg⟩ := ihf fr rest s tfs' src fs cur orig n v' n' hrest hwt hsrc hnd'.2
     (fun name x f ty hl hf => hold name x f ty hl (find_tail hnd'.1 hf).2.2)
     (fun name hn => hag name (by simp [fieldNames] at hn ⊢; exact .inr hn)) hev
   refine ⟨ws, hv', fun name hn => hframe name (fun hh => hn (by simp [fieldNames] at hh ⊢; exact .inr hh)), ?_, himg⟩
@@ -513,12 +746,11 @@ theorem fields_kept (p : Program) (fuel : Nat) (ihf : StFieldsU p fuel) {fr : Fr
 
 /-- the rest of the fields, after the head field was assigned `nv` -/
 theorem fields_assigned (p : Program) (fuel : Nat) (ihf : StFieldsU p fuel) {fr : Frame} {rest : FieldPlans}
-    {sfs tfs' : List (FieldInfo × Ty)} {tf : FieldInfo} {tty : Ty} {src : Val} {fs cur orig : List (S × Val)}
+    {s : Ty} {tfs' : List (FieldInfo × Ty)} {tf : FieldInfo} {tty : Ty} {src : Val} {fs cur orig : List (S × Val)}
     {n : Nat} {v' nv : Val} {n' : Nat}
-    (hrest : HasFieldsU p rest sfs tfs')
-    (hsrc : src = .struct fs ∨ ∃ l, src = .ptr l (.struct fs))
-    (hwt : ∀ name x f ty, fs.lookup name = some x →
-      sfs.find? (fun (y : FieldInfo × Ty) => y.1.name == name) = some (f, ty) → WT p.conv.env x ty)
+    (hrest : HasFieldsU p rest s tfs')
+    (hwt : WT p.conv.env (.struct fs) s)
+    (hsrc : src = .struct fs ∨ ((∃ l, src = .ptr l (.struct fs)) ∧ noWholeSource rest = true))
     (hnd : (fieldNames ((tf, tty) :: tfs')).Nodup)
     (hold : ∀ name x f ty, cur.lookup name = some x →
       ((tf, tty) :: tfs').find? (fun (y : FieldInfo × Ty) => y.1.name == name) = some (f, ty) → OldOK p.conv.env x ty)
@@ -526,11 +758,11 @@ theorem fields_assigned (p : Program) (fuel : Nat) (ihf : StFieldsU p fuel) {fr 
     (hev : evalFields p fuel fr rest src (setField (.struct cur) tf.name nv) n = .ok (v', n')) :
     ∃ ws, v' = .struct ws ∧ (∀ name, name ∉ fieldNames ((tf, tty) :: tfs') → ws.lookup name = cur.lookup name) ∧
       (erase.eraseFields ws).lookup tf.name = some (erase nv) ∧
-      ImgFieldsOnto p.conv.env (CtorSig p) (modesOf rest) sfs fs tfs' (erase.eraseFields orig) (erase.eraseFields ws) := by
+      ImgFieldsOnto p.conv.env (CtorSig p) (modesOf rest) s (.struct fs) tfs' (erase.eraseFields orig) (erase.eraseFields ws) := by
   have hnd' : tf.name ∉ fieldNames tfs' ∧ (fieldNames tfs').Nodup := by simpa [fieldNames] using hnd
   obtain ⟨cur', hset, hself, hother⟩ := setField_struct cur tf.name nv
   rw [hset] at hev
-  obtain ⟨ws, hv', hframe, himg⟩ := ihf fr rest sfs tfs' src fs cur' orig n v' n' hrest hsrc hwt hnd'.2
+  obtain ⟨ws, hv', hframe, himg⟩ := ihf fr rest s tfs' src fs cur' orig n v' n' hrest hwt hsrc hnd'.2
     (fun name x f ty hl hf => by
       obtain ⟨_, hne, hf'⟩ := find_tail (tty := tty) hnd'.1 hf
       rw [hother name hne] at hl
@@ -547,7 +779,7 @@ theorem fields_assigned (p : Program) (fuel : Nat) (ihf : StFieldsU p fuel) {fr 
     rfl
 
 theorem stFieldsU_step (p : Program) (fuel : Nat) (ihc : StConvU p fuel) (ihf : StFieldsU p fuel) : StFieldsU p (fuel + 1) := by
-  intro fr plans sfs tfs src fs cur orig n v' n' hty hsrc hwt hnd hold hag hev
+  intro fr plans s tfs src fs cur orig n v' n' hty hwt hsrc hnd hold hag hev
   cases hty with
   | nil =>
     unfold evalFields at hev
@@ -556,20 +788,45 @@ theorem stFieldsU_step (p : Program) (fuel : Nat) (ihc : StConvU p fuel) (ihf : 
     exact ⟨cur, rfl, fun _ _ => rfl, .nil⟩
   | @skip _ tf tty rest tfs' hrest =>
     unfold evalFields at hev
-    obtain ⟨ws, hv', hframe, hkeep, himg⟩ := fields_kept p fuel ihf hrest hsrc hwt hnd hold hag hev
+    have hsrc' : src = .struct fs ∨ ((∃ l, src = .ptr l (.struct fs)) ∧ noWholeSource rest = true) := by
+      rcases hsrc with h | ⟨h1, h2⟩
+      · exact .inl h
+      · exact .inr ⟨h1, by simpa [noWholeSource] using h2⟩
+    obtain ⟨ws, hv', hframe, hkeep, himg⟩ := fields_kept p fuel ihf hrest hwt hsrc' hnd hold hag hev
     exact ⟨ws, hv', hframe, .keep hkeep himg⟩
-  | @cons _ tf tty sf sty cv rest tfs' b z hfind hcv hrest =>
-    unfold evalFields at hev
-    simp only [] at hev
-    rw [walk_one src fs tf.name hsrc] at hev
-    cases hx : fs.lookup tf.name with
-    | none => simp [hx] at hev
-    | some x =>
-      simp only [hx] at hev
+  | @cons _ tf tty path derefs guarded lp leaf cv rest tfs' z hwalk hlp hcv hrest =>
+    obtain ⟨sfs, hs⟩ := wt_struct_ty hwt
+    have hsrc' : src = .struct fs ∨ ((∃ l, src = .ptr l (.struct fs)) ∧ noWholeSource rest = true) := by
+      rcases hsrc with h | ⟨h1, h2⟩
+      · exact .inl h
+      · refine .inr ⟨h1, ?_⟩
+        simp only [noWholeSource, Bool.and_eq_true] at h2
+        exact h2.2
+    -- the walk from the source is the walk from the source struct
+    have hwsrc : walk path derefs src = walk path derefs (.struct fs) := by
+      rcases hsrc with h | ⟨⟨l, h1⟩, h2⟩
+      · rw [h]
+      · subst h1
+        cases path with
+        | nil => simp [noWholeSource] at h2
+        | cons nm ps =>
+          obtain ⟨ds', hds⟩ := walkTy_first hs hwalk
+          subst hds
+          exact walk_field_ptrsrc
+    cases hw : walk path derefs (.struct fs) with
+    | err e => exact absurd hev (evalFields_mapped_fail p fuel fr _ _ _ _ _ _ _ _ _ _ _ _ (fun l hl => by rw [hwsrc, hw] at hl; cases hl))
+    | panic k => exact absurd hev (evalFields_mapped_fail p fuel fr _ _ _ _ _ _ _ _ _ _ _ _ (fun l hl => by rw [hwsrc, hw] at hl; cases hl))
+    | stuck w => exact absurd hev (evalFields_mapped_fail p fuel fr _ _ _ _ _ _ _ _ _ _ _ _ (fun l hl => by rw [hwsrc, hw] at hl; cases hl))
+    | ok r =>
+      rw [evalFields_mapped p fuel fr tf.name path derefs guarded lp cv z rest src (.struct cur) n r (by rw [hwsrc, hw])] at hev
+      obtain ⟨hFS, hWT⟩ := fieldArg_spec p.conv.env n hwt hwalk hlp hw
+      generalize fieldArg guarded lp r n = argv at hev hFS hWT
+      obtain ⟨a, n2⟩ := argv
+      simp only [] at hFS hWT
+      unfold fieldCont at hev
       have habs : (Val.struct cur).isAbsent = false := rfl
       have hlook : fieldOf (.struct cur) tf.name = cur.lookup tf.name := rfl
-      simp only [habs, hlook, Bool.false_and, if_false, Bool.false_eq_true, Bool.not_false, if_true, Option.getD_some,
-        List.isEmpty_cons] at hev
+      simp only [habs, hlook, Bool.false_and, if_false, Bool.false_eq_true] at hev
       -- the previous value of the field
       have holdF : OldOK p.conv.env ((cur.lookup tf.name).getD .nil) tty := by
         cases hc : cur.lookup tf.name with
@@ -581,49 +838,46 @@ theorem stFieldsU_step (p : Program) (fuel : Nat) (ihc : StConvU p fuel) (ihf : 
         rw [horig]
         cases cur.lookup tf.name <;> rfl
       -- what happens when the field is assigned
-      have assigned : ∀ (nv : Val) (n1 : Nat),
-          evalConv p fuel { fr with parent := none } cv x ((cur.lookup tf.name).getD .nil) n = .ok (nv, n1) →
+      have assigned : ∀ (fr' : Frame) (nv : Val) (n1 : Nat),
+          evalConv p fuel fr' cv a ((cur.lookup tf.name).getD .nil) n2 = .ok (nv, n1) →
           evalFields p fuel fr rest src (setField (.struct cur) tf.name nv) n1 = .ok (v', n') →
           ∃ ws y, v' = .struct ws ∧ (∀ name, name ∉ fieldNames ((tf, tty) :: tfs') → ws.lookup name = cur.lookup name) ∧
             (erase.eraseFields ws).lookup tf.name = some y ∧
-            ImgOnto p.conv.env (CtorSig p) sty tty x (((erase.eraseFields orig).lookup tf.name).getD .nil) y ∧
-            ImgFieldsOnto p.conv.env (CtorSig p) (modesOf rest) sfs fs tfs' (erase.eraseFields orig) (erase.eraseFields ws) := by
-        intro nv n1 hc hev'
-        have himg := ihc _ cv sty tty x _ n nv n1 hcv (hwt _ _ _ _ hx hfind) holdF hc
-        obtain ⟨ws, hv', hframe, hself, hrestImg⟩ := fields_assigned p fuel ihf hrest hsrc hwt hnd hold hag hev'
+            ImgOnto p.conv.env (CtorSig p) (PlanCheck.fieldArgTy guarded lp leaf) tty a
+              (((erase.eraseFields orig).lookup tf.name).getD .nil) y ∧
+            ImgFieldsOnto p.conv.env (CtorSig p) (modesOf rest) s (.struct fs) tfs' (erase.eraseFields orig) (erase.eraseFields ws) := by
+        intro fr' nv n1 hc hev'
+        have himg := ihc fr' cv _ tty a _ n2 nv n1 hcv hWT holdF hc
+        obtain ⟨ws, hv', hframe, hself, hrestImg⟩ := fields_assigned p fuel ihf hrest hwt hsrc' hnd hold hag hev'
         exact ⟨ws, erase nv, hv', hframe, hself, by rw [holdE]; exact himg, hrestImg⟩
       cases z with
       | none =>
         have hz : (ZeroCheck.none == ZeroCheck.check) = false := by decide
         simp only [hz, Bool.false_and, if_false, Bool.false_eq_true] at hev
-        cases hc : evalConv p fuel { fr with parent := none } cv x ((cur.lookup tf.name).getD .nil) n with
-        | err e => simp [hc] at hev
-        | panic k => simp [hc] at hev
-        | stuck w => simp [hc] at hev
-        | ok r =>
-          obtain ⟨nv, n1⟩ := r
-          simp only [hc] at hev
-          obtain ⟨ws, y, hv', hframe, hself, himg, hrestImg⟩ := assigned nv n1 hc hev
-          exact ⟨ws, hv', hframe, .assign hfind hx hself himg hrestImg⟩
+        split at hev
+        · rename_i nv n1 hc
+          obtain ⟨ws, y, hv', hframe, hself, himg, hrestImg⟩ := assigned _ nv n1 hc hev
+          exact ⟨ws, hv', hframe, .assign hFS hself himg hrestImg⟩
+        · cases hev
+        · cases hev
+        · cases hev
       | check =>
         have hz : (ZeroCheck.check == ZeroCheck.check) = true := by decide
         simp only [hz, Bool.true_and] at hev
-        cases hzv : isZeroVal x with
+        cases hzv : isZeroVal a with
         | true =>
           simp only [hzv, if_true] at hev
-          obtain ⟨ws, hv', hframe, hkeep, himg⟩ := fields_kept p fuel ihf hrest hsrc hwt hnd hold hag hev
-          exact ⟨ws, hv', hframe, .zeroKept hfind hx hzv hkeep himg⟩
+          obtain ⟨ws, hv', hframe, hkeep, himg⟩ := fields_kept p fuel ihf hrest hwt hsrc' hnd hold hag hev
+          exact ⟨ws, hv', hframe, .zeroKept hFS hzv hkeep himg⟩
         | false =>
           simp only [hzv, Bool.false_eq_true, if_false] at hev
-          cases hc : evalConv p fuel { fr with parent := none } cv x ((cur.lookup tf.name).getD .nil) n with
-          | err e => simp [hc] at hev
-          | panic k => simp [hc] at hev
-          | stuck w => simp [hc] at hev
-          | ok r =>
-            obtain ⟨nv, n1⟩ := r
-            simp only [hc] at hev
-            obtain ⟨ws, y, hv', hframe, hself, himg, hrestImg⟩ := assigned nv n1 hc hev
-            exact ⟨ws, hv', hframe, .nonZero hfind hx (by unfold IsZeroValue; simp [hzv]) hself himg hrestImg⟩
+          split at hev
+          · rename_i nv n1 hc
+            obtain ⟨ws, y, hv', hframe, hself, himg, hrestImg⟩ := assigned _ nv n1 hc hev
+            exact ⟨ws, hv', hframe, .nonZero hFS (by unfold IsZeroValue; simp [hzv]) hself himg hrestImg⟩
+          · cases hev
+          · cases hev
+          · cases hev
 
 /-! ### the plan nodes -/
 
@@ -768,10 +1022,10 @@ theorem stConvU_step (p : Program) (fuel : Nat) (ihc : StConvU p fuel) (ihm : St
       exact .map hs ht himg
   | @structc _ _ sfs tfs plans upd hs ht hnd hfs =>
     unfold evalConv at hev
-    obtain ⟨fs, rfl, hfwt⟩ := wt_struct_inv hwt hs
+    obtain ⟨fs, rfl, _⟩ := wt_struct_inv hwt hs
     obtain ⟨ofs, hnorm, hofs, hoOK⟩ := oldOK_struct_shape hold ht
     rw [hnorm] at hev
-    obtain ⟨ws, hv', _, hws⟩ := ihf fr plans sfs.toList tfs.toList (.struct fs) fs ofs ofs n v' n' hfs (.inl rfl) hfwt hnd hoOK
+    obtain ⟨ws, hv', _, hws⟩ := ihf fr plans s tfs.toList (.struct fs) fs ofs ofs n v' n' hfs hwt (.inl rfl) hnd hoOK
       (fun _ _ => rfl) (by simpa using hev)
     subst hv'
     show ImgOnto p.conv.env (CtorSig p) s t (.struct fs) (erase old) (.struct (erase.eraseFields ws))
@@ -835,11 +1089,11 @@ update method with a pointer source — a pointer to it -/
 theorem structc_onto (p : Program) (hp : ProgOKU p) (fuel : Nat) (fr : Frame) (plans : FieldPlans) (upd : Bool) (s t : Ty)
     (sfs tfs : Fields) (src : Val) (fs : List (S × Val)) (old : Val) (n : Nat) (v' : Val) (n' : Nat)
     (hty : HasTyU p (.structc plans upd) s t) (hs : under p.conv.env s = .struct sfs) (ht : under p.conv.env t = .struct tfs)
-    (hsrc : src = .struct fs ∨ ∃ l, src = .ptr l (.struct fs))
+    (hsrc : src = .struct fs ∨ ((∃ l, src = .ptr l (.struct fs)) ∧ noWholeSource plans = true))
     (hwt : WT p.conv.env (.struct fs) s) (hold : OldOK p.conv.env old t)
     (hev : evalConv p fuel fr (.structc plans upd) src old n = .ok (v', n')) :
     ∃ ws, v' = .struct ws ∧
-      ImgFieldsOnto p.conv.env (CtorSig p) (modesOf plans) sfs.toList fs tfs.toList (oldFields (erase old)) (erase.eraseFields ws) := by
+      ImgFieldsOnto p.conv.env (CtorSig p) (modesOf plans) s (.struct fs) tfs.toList (oldFields (erase old)) (erase.eraseFields ws) := by
   cases fuel with
   | zero => unfold evalConv at hev; cases hev
   | succ fuel =>
@@ -848,12 +1102,10 @@ theorem structc_onto (p : Program) (hp : ProgOKU p) (fuel : Nat) (fr : Frame) (p
     | structc hs' ht' hnd hfs =>
       rw [hs] at hs'; cases hs'
       rw [ht] at ht'; cases ht'
-      obtain ⟨fs', hfs', hfwt⟩ := wt_struct_inv hwt hs
-      cases hfs'
       obtain ⟨ofs, hnorm, hofs, hoOK⟩ := oldOK_struct_shape hold ht
       rw [hnorm] at hev
-      obtain ⟨ws, hv', _, hws⟩ := (sound_allU p hp fuel).2.2.2.2 fr plans sfs.toList tfs.toList src fs ofs ofs n v' n' hfs
-        hsrc hfwt hnd hoOK (fun _ _ => rfl) (by simpa using hev)
+      obtain ⟨ws, hv', _, hws⟩ := (sound_allU p hp fuel).2.2.2.2 fr plans s tfs.toList src fs ofs ofs n v' n' hfs
+        hwt hsrc hnd hoOK (fun _ _ => rfl) (by simpa using hev)
       refine ⟨ws, hv', ?_⟩
       rw [oldFields_erase, hofs]
       exact hws
@@ -898,7 +1150,7 @@ theorem convert_struct_onto (p : Program) (hp : ProgOKU p) (fuel m : Nat) (gm : 
     (fs : List (S × Val)) (hwt : WT p.conv.env (.struct fs) gm.source) (cs : List Val) (n : Nat) (v' : Val) (n' : Nat)
     (hev : callMethod p fuel m (.struct fs) cs n = .ok (v', n')) :
     (fieldNames tfs.toList).Nodup ∧ ∃ ws, v' = .struct ws ∧
-      ImgFieldsOnto p.conv.env (CtorSig p) (modesOf plans) sfs.toList fs tfs.toList
+      ImgFieldsOnto p.conv.env (CtorSig p) (modesOf plans) gm.source (.struct fs) tfs.toList
         (erase.eraseFields (zeroVal.zeroFields p.conv.env 63 tfs.toList)) (erase.eraseFields ws) := by
   cases fuel with
   | zero => unfold callMethod at hev; cases hev
@@ -934,12 +1186,13 @@ theorem update_struct_onto (p : Program) (hp : ProgOKU p) (m : Nat) (gm : GenMet
     (upd : Bool) (hm : p.methods[m]? = some gm) (hb : gm.body = some (.update srcIsPtr (.structc plans upd)))
     (s t : Ty) (htys : UpdTypes p gm srcIsPtr s t)
     (sfs tfs : Fields) (hs : under p.conv.env s = .struct sfs) (ht : under p.conv.env t = .struct tfs)
-    (src : Val) (fs : List (S × Val)) (hsrc : src = .struct fs ∨ ∃ l, src = .ptr l (.struct fs))
+    (src : Val) (fs : List (S × Val))
+    (hsrc : src = .struct fs ∨ ((∃ l, src = .ptr l (.struct fs)) ∧ noWholeSource plans = true))
     (hwt : WT p.conv.env (.struct fs) s) (old : Val) (hold : OldOK p.conv.env old t)
     (fuel : Nat) (fr : Frame) (n : Nat) (v' : Val) (n' : Nat)
     (hev : evalConv p fuel fr (.structc plans upd) src old n = .ok (v', n')) :
     ∃ ws, v' = .struct ws ∧
-      ImgFieldsOnto p.conv.env (CtorSig p) (modesOf plans) sfs.toList fs tfs.toList (oldFields (erase old)) (erase.eraseFields ws) := by
+      ImgFieldsOnto p.conv.env (CtorSig p) (modesOf plans) s (.struct fs) tfs.toList (oldFields (erase old)) (erase.eraseFields ws) := by
   have hty := hp m gm hm
   unfold BodyOKU at hty
   simp only [hb] at hty
@@ -1023,7 +1276,7 @@ theorem default_struct_onto (p : Program) (hp : ProgOKU p) (fuel m : Nat) (gm : 
     (fs : List (S × Val)) (hwt : WT p.conv.env (.struct fs) gm.source) (cs : List Val) (n : Nat) (v' : Val) (n' : Nat)
     (hev : callMethod p fuel m (.struct fs) cs n = .ok (v', n')) :
     ∃ ws, v' = .struct ws ∧
-      ImgFieldsOnto p.conv.env (CtorSig p) (modesOf plans) sfs.toList fs tfs.toList
+      ImgFieldsOnto p.conv.env (CtorSig p) (modesOf plans) gm.source (.struct fs) tfs.toList
         (erase.eraseFields (ctorVal.ctorFields p.conv.env 63 tfs.toList)) (erase.eraseFields ws) := by
   cases fuel with
   | zero => unfold callMethod at hev; cases hev
